@@ -120,9 +120,9 @@ bool ThreadPool::initialize(ssize_t min_thread_num, ssize_t max_thread_num)
         for (ssize_t i = 0; i < min_thread_num; ++i)
             if (!createWorker())
                 return false;
-    }
 
-    d_->is_ready = true;
+        d_->is_ready = true;
+    }
 
     return true;
 }
@@ -142,11 +142,6 @@ ThreadPool::TaskToken ThreadPool::execute(NonReturnFunc &&backend_task, NonRetur
     RECORD_SCOPE();
     TaskToken token;
 
-    if (!d_->is_ready) {
-        LogWarn("need initialize() first");
-        return token;
-    }
-
     if (prio < THREAD_POOL_PRIO_MIN)
         prio = THREAD_POOL_PRIO_MIN;
     else if (prio > THREAD_POOL_PRIO_MAX)
@@ -156,6 +151,13 @@ ThreadPool::TaskToken ThreadPool::execute(NonReturnFunc &&backend_task, NonRetur
 
     {
         std::lock_guard<std::mutex> lg(d_->lock);
+
+        //! 必须在锁内判断：cleanup() 一开始就在锁内复位 is_ready，之后提交的任务（比如任务体里再提交的任务）
+        //! 不能再被接受，否则它会躲过 cleanup() 的清理，还会在 cleanup() 期间创建出不被等待的工作线程
+        if (!d_->is_ready) {
+            LogWarn("need initialize() first");
+            return token;
+        }
 
         Task *item = d_->task_pool.alloc();
         item->backend_task = std::move(backend_task);
@@ -241,6 +243,9 @@ void ThreadPool::cleanup()
     std::vector<std::thread*> thread_vec;
     {
         std::lock_guard<std::mutex> lg(d_->lock);
+        //! 从现在起不再接受新任务
+        d_->is_ready = false;
+
         //! 清空task中的任务
         for (size_t i = 0; i < d_->undo_tasks_token.size(); ++i) {
             auto &tasks_token = d_->undo_tasks_token.at(i);
@@ -271,8 +276,6 @@ void ThreadPool::cleanup()
         t->join();
         delete t;
     }
-
-    d_->is_ready = false;
 }
 
 ThreadPool::Snapshot ThreadPool::snapshot() const
